@@ -10,7 +10,7 @@ ENV = "GOFLAGS=-mod=mod GOPROXY=off GOSUMDB=off GOTOOLCHAIN=local"
 CHECKS = {
  "C01": ("exploration",
    "runtime monitor: stuck-state certificate (two identical all-parked goroutine dumps with a still logical clock) + spin rule (a goroutine running library code in five dumps while the clock stands still for 5 s) + bounded-progress rule in completed render cycles, over generated terminating programs with hook-driven schedule perturbation",
-   "~1000 (quick) / ~20000 (thorough) generated terminating programs (n in 0..200 bars vs queue lengths incl. n>q, auto/manual/none, synced and slow decorators with different counts per bar, pop mode, removal, queue-after chains, priority churn, concurrent Write, render delay, user wait group, cancel/Shutdown by step or hook trigger) run against the real library under seeded delays at 16 hook points (incl. targeted single-point delays, among them the bar actor itself) and GOMAXPROCS 1/2/4/16, plus 'swap' programs in which a bar with synchronised decorators leaves while a plain bar joins; a hang is decided from goroutine states (deadlock) or from the number of completed render cycles after every bar is terminal (livelock), never from elapsed time.",
+   "~1000 (quick) / ~20000 (thorough) generated terminating programs (n in 0..200 bars vs queue lengths incl. n>q, auto/manual/none, synced and slow decorators with different counts per bar, pop mode, removal, queue-after chains, priority churn, concurrent Write, render delay, user wait group, cancel/Shutdown by step or hook trigger) run against the real library under seeded delays at 16 hook points (incl. targeted single-point delays, among them the bar actor itself) and GOMAXPROCS 1/2/4/16, plus 'swap' programs in which a bar with synchronised decorators leaves while a plain bar joins and 'queue' programs (bars queued behind bars that finished any number of frames ago); a hang is decided from goroutine states (deadlock) or from the number of completed render cycles after every bar is terminal (livelock), never from elapsed time.",
    "unbounded 'eventually' restated as the two safety forms of DESIGN 2.4; wall-clock watchdog firing = inconclusive; schedules are sampled",
    "DESIGN.md 2.4, 4/C01"),
  "C02": ("exploration",
@@ -20,7 +20,7 @@ CHECKS = {
    "DESIGN.md 4/C02"),
  "C03": ("exploration",
    "runtime monitor: frame parser over the recorded output stream; last frame compared per bar with the post-Wait getters and the bar's on-complete/on-abort decoration spec; logical-clock check that nothing is written after Wait returned",
-   "~800 (quick) / ~16000 (thorough) auto-refresh programs with last increments, aborts, SetTotal, cancel and Shutdown racing the ticker, early refreshes and Wait itself (incl. Wait invoked while clients still run); the last output write is parsed (self-describing marker rows) and each remaining bar must appear once, in the state read back after Wait, with its on-complete / on-abort texts; removed bars absent (natural endings); part busy ends every scenario by cancel/Shutdown while workers keep the bars' goroutines occupied; the whole stream is also replayed through the terminal emulator, the final screen must be the last frame.",
+   "~800 (quick) / ~16000 (thorough) auto-refresh programs with last increments, aborts, SetTotal, cancel and Shutdown racing the ticker, early refreshes and Wait itself (incl. Wait invoked while clients still run); the last output write is parsed (self-describing marker rows) and each remaining bar must appear once, in the state read back after Wait, with its on-complete / on-abort texts; removed bars absent (natural endings); part busy ends every scenario by cancel/Shutdown while workers keep the bars' goroutines occupied (a bar nothing could have completed must then be shown aborted); the whole stream is also replayed through the terminal emulator, the final screen must be the last frame.",
    "final-frame clause checked for auto-refresh containers; in manual mode only the implied 'never shown running again after terminal' form",
    "DESIGN.md 4/C03, Appendix A"),
  "C05": ("exploration",
@@ -30,12 +30,12 @@ CHECKS = {
    "DESIGN.md 4/C05, Appendix A"),
  "C13": ("exploration",
    "runtime monitor: exactly-once / ordering checker over unique text payloads in the parsed output stream against the invoke/return history of Progress.Write",
-   "~800 (quick) / ~16000 (thorough) programs with 1-9 writer goroutines (lines of 1-3000 bytes, multi-line writes) interleaved with render cycles, completion, the final render and shutdown, incl. writers that keep writing until well after Wait returned; every successful Write must appear once, untorn, above the rows of its frame, in an order consistent with real-time order, by the last frame; late writes must return (0, ErrDone) and emit nothing; part lines: texts handed over in two pieces not aligned to lines, and one identical line written every cycle above unchanging rows (judged by multiplicity).",
+   "~800 (quick) / ~16000 (thorough) programs with 1-9 writer goroutines (lines of 1-3000 bytes, multi-line writes) interleaved with render cycles, completion, the final render and shutdown, incl. writers that keep writing until well after Wait returned; every successful Write must appear once, untorn, above the rows of its frame, in an order consistent with real-time order, by the last frame; late writes must return (0, ErrDone) and emit nothing; a quarter of the programs dump 40-150 KiB in one Write; part lines: texts handed over in two pieces not aligned to lines, and one identical line written every cycle above unchanging rows (judged by multiplicity).",
    "'emitted by the last frame' only for auto-refresh containers once the first frame was written; manual: by the next rendered frame",
    "DESIGN.md 4/C13"),
  "C14": ("fault_enumeration",
    "runtime monitor: cancel/Shutdown placed by hook trigger at enumerated (hook point x occurrence) sites and at random steps of client programs; counters in shutdown-listener decorators, notifier reader, post-Wait getters, stuck-state certificate",
-   "~800 (quick) / ~16000 (thorough) programs ended by context cancel or Shutdown placed at 13 hook points x occurrences 1-4 (mid render, between a bar's first and second terminal frame, in the heap manager, at bar exit, concurrently with Add) or at a random step; after Wait: no bar running, exactly one of Completed/Aborted, never-completed bars aborted, every listener decorator (wrapped 1-3 deep; some read their own bar, some take milliseconds) notified exactly once - counted at the moment Wait returns and again at the end -, exactly one notifier value without duplicates.",
+   "~800 (quick) / ~16000 (thorough) programs ended by context cancel or Shutdown placed at 13 hook points x occurrences 1-4 (mid render, between a bar's first and second terminal frame, in the heap manager, at bar exit, concurrently with Add) or at a random step; after Wait: no bar running, exactly one of Completed/Aborted, never-completed bars aborted, every listener decorator (wrapped 1-3 deep; some read their own bar, some take milliseconds) notified exactly once - counted at the moment Wait returns and again at the end -, exactly one notifier value without duplicates, listing every bar the last frame shows and does not retire; IsRunning is false for every bar the moment the cancel / Shutdown call returns.",
    "a trigger that has not fired when the clients are done is overtaken by the director (reported per site in the evidence)",
    "DESIGN.md 4/C14"),
  "C16": ("exploration",
@@ -69,7 +69,7 @@ CHECKS = {
    "container wide enough that nothing is truncated; bars clipped by height would still take part, so these scenarios never clip",
    "DESIGN.md 4/C12"),
  "C15": ("fault_enumeration",
-   "runtime monitor: fault injection at enumerated sites (k-th Fill of bar i, the first Fill of a frame rendered on the container's way out, k-th extender call, k-th output Write, k-th terminal-size query via dup2 on a pty) + stuck-state certificate + debug-output / frame / hook assertions",
+   "runtime monitor: fault injection at enumerated sites (k-th Fill of bar i, the first Fill of a frame rendered on the container's way out, k-th extender call, k-th output Write - total or partial -, k-th terminal-size query via dup2 on a pty) + stuck-state certificate + debug-output / frame / hook assertions",
    "~850 (quick) / ~17000 (thorough) programs with one injected render error (k in 1,2,3,5,random; failing bar anywhere in the order) while the other bars carry unequal numbers of synchronised and slow decorators; after the fault: Wait returns (no certificate), no crash, the debug output holds the error exactly once, no further render cycle or output write, no bar running.",
    "fault sites that were not reached (bar finished earlier) count as trivial",
    "DESIGN.md 4/C15"),
